@@ -369,6 +369,9 @@ def slowread(part, rng, campaign):
 
 
 def run_shard(campaign, shard, nshards, seed, tier):
+    if campaign == 'api':
+        import apiuse
+        return apiuse.run_api('C14', shard, nshards, seed, tier)
     part = Part()
     rng = random.Random('%s/%s/%s' % (seed, campaign, shard))
     quick = tier != 'thorough'
@@ -405,4 +408,6 @@ def run(ctx):
     for c in ('tl-exhaustive', 'tl-random', 'tl-midtransfer', 'tl-inflight', 'tl-slowread', 'notifier-exhaustive', 'notifier-random', 'notifier-midtransfer', 'notifier-inflight'):
         run_sharded(ctx, 'C14', c, nshards=16)
     ctx.exhaustive['all operation sequences of length <= 3 over 10 operations (quick: all of length <= 2 and 1/3 resp. 1/9 of length 3)'] = not ctx.quick
-    return RULE, ASSUME
+    run_sharded(ctx, 'C14', 'api', nshards=2)
+    import apiuse
+    return RULE + apiuse.rule_text('C14'), ASSUME
